@@ -32,12 +32,12 @@ from . import common
 
 ID = "C12"
 LEVEL = "exploration"
-KNOBS = {"p_decisions": 0.45, "p_handler": 0.5, "p_abort": 0.45, "p_abort_if": 0.7, "p_budget": 0.35, "p_generous": 0.45, "p_ok": 0.18,
+KNOBS = {"p_firing_timeout": 0.12, "p_decisions": 0.45, "p_handler": 0.5, "p_abort": 0.45, "p_abort_if": 0.7, "p_budget": 0.35, "p_generous": 0.45, "p_ok": 0.18,
          "p_hostile": 0.12, "p_overshoot": 0.3, "p_att_hooks": 0.5, "p_single_call": 0.8}
 RULE = ("each seeded scenario is run through all 28 entry-point variants and the normalised traces are compared pairwise "
         "against the sync Retry.call run; distinct by trace shape of the reference run; non-trivial = >=1 failed attempt")
 COMPONENTS = common.REAL_COMPONENTS
-ASSUMPTIONS = ["abnormal terminations are C08/C13's domain and are not generated here",
+ASSUMPTIONS = ["of the abnormal terminations only an interruption raised by the operation itself is generated (the rest is C08/C13's domain)",
                "normalisation is limited to the documented differences listed in the module docstring", "sampling, not proof"]
 BUDGETS = {"quick": (8000, 90), "thorough": (250000, 285)}
 SHRINK_CAP = 150
@@ -68,6 +68,12 @@ def gen(seed, tier="quick"):
         call["attempts"][i] = {"kind": "nested_ree", "dur": call["attempts"][i].get("dur", 0)}
     scn["place"]["bs_async"] = r.random() < 0.5
     scn["place"]["sleeper_kind"] = r.choice(["async", "sync"])
+    if r.random() < 0.1:
+        # the operation is interrupted (part of "the same behaviour of the operation"): every entry point lets the
+        # interruption through and has the same breaker / budget interactions up to and including that moment
+        call = scn["calls"][0]
+        i = r.randrange(0, max(1, min(scn["cfg"]["max_attempts"], len(call["attempts"]))))
+        call["attempts"][i] = {"kind": "base", "exc": r.choice(["KeyboardInterrupt", "SystemExit", "CancelledError"]), "dur": call["attempts"][i].get("dur", 0)}
     if r.random() < 0.4:
         scn["cfg"]["breaker"] = {"kind": "real", "failure_threshold": r.choice([1, 2, 3]), "window_us": 60_000_000,
                                  "recovery_us": r.choice([1_000_000, 30_000_000])}
@@ -190,7 +196,7 @@ def execute(scn):
                           {"entry": name, "index": k, "reference": a[k] if k < len(a) else None, "got": b[k] if k < len(b) else None}))
         if key[2] == "execute":
             for cid, cf in calls_by_key[key].items():
-                if cf.end is not None and cf.end["how"] == "raise" and not str(cf.end["exc"].get("obj") or "").startswith("N"):
+                if cf.end is not None and cf.end["how"] == "raise" and not str(cf.end["exc"].get("obj") or "").startswith(("N", "B")):
                     viol.append(V("R2", f"{key[1]}.execute ({key[0]}) raised instead of returning a RetryOutcome",
                                   {"entry": name, "exc": cf.end["exc"]}))
         if facts != group_ref[2]:
